@@ -16,20 +16,22 @@ type clientAnchors struct {
 	decPkg   string // dhcpv4 | dhcpv6 import path
 	decName  string // FromBytes | MessageFromBytes
 	client   *types.Named
-	ctor     *ssa.Function   // function that allocates Client (and, directly or through one callee, starts the loop)
-	goIns    *ssa.Go         // the go statement starting the receive loop
-	recvLoop *ssa.Function   // function run by that goroutine
-	send     *ssa.Function   // Client method that registers the transaction (only MapUpdate on pending)
-	cancel   *ssa.Function   // closure returned by send
-	sar      *ssa.Function   // SendAndRead
-	try      *ssa.Function   // closure passed to the retry driver
-	retry    *ssa.Function   // retry driver
-	closeFn  *ssa.Function   // Close
-	sendCall *ssa.Call       // call of send inside try
+	ctor     *ssa.Function // function that allocates Client (and, directly or through one callee, starts the loop)
+	goIns    *ssa.Go       // the go statement starting the receive loop
+	recvLoop *ssa.Function // function run by that goroutine
+	send     *ssa.Function // Client method that registers the transaction (only MapUpdate on pending)
+	cancel   *ssa.Function // closure returned by send
+	sar      *ssa.Function // SendAndRead
+	try      *ssa.Function // closure passed to the retry driver
+	retry    *ssa.Function // retry driver
+	closeFn  *ssa.Function // Close
+	sendCall *ssa.Call     // call of send inside try
 	errs     []string
 }
 
-func (a *clientAnchors) fail(f string, args ...interface{}) { a.errs = append(a.errs, fmt.Sprintf(f, args...)) }
+func (a *clientAnchors) fail(f string, args ...interface{}) {
+	a.errs = append(a.errs, fmt.Sprintf(f, args...))
+}
 
 // clientField: v is &x.<name> (or a load of it) where x is *Client
 func (a *clientAnchors) isClientFieldAddr(v ssa.Value, name string) bool {
@@ -229,8 +231,8 @@ func resolveClientAnchors(c *Ctx, short string) *clientAnchors {
 // lock dataflow: must-hold / may-hold of Client.pendingMu at each instruction
 
 type lockInfo struct {
-	must map[ssa.Instruction]bool // lock definitely held before the instruction
-	may  map[ssa.Instruction]bool
+	must    map[ssa.Instruction]bool // lock definitely held before the instruction
+	may     map[ssa.Instruction]bool
 	exitMay map[*ssa.BasicBlock]bool
 }
 
